@@ -1190,6 +1190,30 @@ func c20Key(text string) (string, int) {
 }
 
 func genC20(g *Gen) {
+	// one whole-report case: size.Stat/text where the text is determined, size.Stat/sorted where only the
+	// order of the blocks is random, nothing where the choice of the listed map entries is random
+	report := func(text string, v V, lab, key string, d, m, avg int, unit string) {
+		det := &c20DetInfo{text: true, lines: true}
+		if len(v.L) > 1 {
+			det.walk(v, d, m)
+		}
+		op := "size.Stat/text"
+		switch {
+		case det.text:
+			g.Stat("report-text")
+		case det.lines:
+			op = "size.Stat/sorted"
+			g.Stat("report-sorted")
+		default:
+			g.Stat("report-skipped-random-map-order")
+			return
+		}
+		rk := ""
+		if det.listed >= 3 || avg > 0 {
+			rk = fmt.Sprintf("%s/report%d,%d/cutD%s/cutM%s/avg%s/%s", key, minInt(d, 5), minInt(m, 6), B(det.cutDepth), B(det.cutMax), B(avg > 0), op[10:])
+		}
+		g.Do(op, L(text, lab, Int(d), Int(m), Int(avg), unit), rk)
+	}
 	emit := func(text, bucket string) {
 		key, depth := c20Key(text)
 		g.Stat(bucket)
@@ -1220,30 +1244,13 @@ func genC20(g *Gen) {
 		if !det.lines {
 			// look for limits under which the map order cannot show
 			d, m = g.R.Pick(1, 2, 3, -1), 100
-			det = &c20DetInfo{text: true, lines: true}
-			det.walk(v, d, m)
 		}
 		avg, unit := 0, L()
 		if g.R.Intn(3) == 0 {
 			avg = g.R.Pick(1, 2, 3, 7, 10, 100, 1000, 4096, 1<<20+1, 1<<40, g.R.Range(1, 1<<16), -5)
 			unit = []string{L(), L("0"), L("-3"), L("3"), L("1"), L("-10")}[g.R.Pick(0, 0, 1, 2, 2, 3, 4, 5)]
 		}
-		op := "size.Stat/text"
-		switch {
-		case det.text:
-			g.Stat("report-text")
-		case det.lines:
-			op = "size.Stat/sorted"
-			g.Stat("report-sorted")
-		default:
-			g.Stat("report-skipped-random-map-order")
-			return
-		}
-		rk := ""
-		if det.listed >= 3 || avg > 0 {
-			rk = fmt.Sprintf("%s/report%d,%d/cutD%s/cutM%s/avg%s/%s", key, minInt(d, 5), minInt(m, 6), B(det.cutDepth), B(det.cutMax), B(avg > 0), op[10:])
-		}
-		g.Do(op, L(text, lab, Int(d), Int(m), Int(avg), unit), rk)
+		report(text, v, lab, key, d, m, avg, unit)
 	}
 	// typehelper.ToSlice (and size.Of of its result) on the canonical text of a value
 	toSlice := func(text, bucket string) {
@@ -1596,6 +1603,58 @@ func genC20(g *Gen) {
 		heapCase(cells, root, "rand-heap")
 	}
 	gen.reset(0)
+
+
+	// (3f) the whole report on a grid: every depth in -2..6 x every maxItem in -1..5 (and 100), with and
+	// without an average, on the value of TestSizeStat (behind a pointer and in a slice) and on a few shapes
+	{
+		i32s := func(xs ...int) string {
+			return L("23", "[5]", "0", rep(len(xs), func(i int) string { return L("5", Int(xs[i])) }))
+		}
+		my := func(a, b, c, d, e, f, g, h string) string { return L("25", L(a, b, c, d, e, f, g, h)) }
+		zb, zc := L("17", "[5]", L("[5,0]", "[5,0]", "[5,0]")), L("21", "[24]", "[3]", "1", L())
+		zd, ze, zf, zg := L("22", "[27]", L()), L("23", "[22,[27]]", "1", L()), L("23", "[24]", "1", L()), L("20", "1", L())
+		only := func(a string) string { return my(a, zb, zc, zd, ze, zf, zg, zg) }
+		pm := func(x string) string { return L("22", "[27]", L(x)) }
+		tv := my(i32s(1, 2, 3), L("17", "[5]", L("[5,4]", "[5,5]", "[5,6]")),
+			L("21", "[24]", "[3]", "0", L(L(L("24", Str("abc")), "[3,3]"))),
+			pm(only(i32s(1, 2))),
+			L("23", "[22,[27]]", "0", L(pm(only(i32s(1, 2, 3))), pm(only(i32s(2, 3, 4))))),
+			L("23", "[24]", "0", L(L("24", Str("abc")), L("24", Str("def")))),
+			zg, L("20", "1", L("[22,[5],[[5,3]]]")))
+		shapesG := []string{
+			pm(tv),
+			L("23", "[27]", "0", L(tv)),
+			L("23", "[23,[3]]", "0", rep(6, func(i int) string { return L("23", "[3]", "0", rep(i, func(j int) string { return L("3", Int(j)) })) })),
+			L("17", "[17,[24],2]", rep(3, func(i int) string { return L("17", "[24]", L(L("24", Str("a")), L("24", Str("bcd")))) })),
+			L("25", L(L("22", "[22,[22,[7]]]", L(L("22", "[22,[7]]", L(L("22", "[7]", L("[7,1]")))))), L("20", "0", L(L("22", "[20,0]", L("[20,0,[]]")))), "[12,5]")),
+			L("21", "[5]", "[23,[24]]", "0", L(L("[5,7]", L("23", "[24]", "0", L(L("24", Str("x")), L("24", Str("yy")), L("24", Str("zzz"))))))),
+			L("23", "[20,0]", "0", L("[20,0,[]]", L("20", "0", L(L("23", "[1]", "0", L("[1,1]", "[1,0]")))), L("20", "0", L(L("22", "[16]", L("[16,1]")))))),
+		}
+		for _, text := range shapesG {
+			v, err := ParseVal(text)
+			if err != nil {
+				c20Fatal("grid: %v", err)
+			}
+			lab, stable := c20Labels(v)
+			if !stable {
+				c20Fatal("grid: unstable labels")
+			}
+			key, _ := c20Key(text)
+			for d := -2; d <= 6; d++ {
+				for _, m := range []int{-1, 0, 1, 2, 3, 4, 5, 100} {
+					g.Stat("exh-report-grid")
+					report(text, v, lab, key, d, m, 0, L())
+					if (d+m)%3 == 0 {
+						report(text, v, lab, key, d, m, g.R.Pick(1, 3, 10, 1000), []string{L(), L("-3"), L("2")}[g.R.Intn(3)])
+					}
+				}
+			}
+			report(text, v, lab, key, 11, 100, 0, L())
+			report(text, v, lab, key, 11, 100, 10, L())
+		}
+		g.Exhaust = append(g.Exhaust, fmt.Sprintf("whole report: depth -2..6 x maxItem {-1..5,100} on %d fixed values (the struct of TestSizeStat behind a pointer and in a slice, slices of slices of length 0..5, arrays of arrays, a chain of pointers, nested interfaces, a map of slices)", len(shapesG)))
+	}
 
 	// (3c) slices / arrays whose elements are ARRAYS of non-scalars: outer x array length x inner shape x leaf type
 	for _, e := range inner {
